@@ -41,6 +41,12 @@ CHECKS = {
     "C10": dict(engine="E1+E5", cat="model_checking",
                 technique="exhaustive enumeration of 8 scalars x 3 coercion directions x boundary-value universe on the real scalar objects and through a real engine; four algebraic laws checked on every triple against reference tables",
                 text="Every (scalar, direction, value) triple over 8 built-in scalars, result/input/literal directions and a 140-value boundary universe (0, +-1, +-2^31, +-2^53, huge ints, integral/non-integral floats, NaN, +-inf, denormals, numeric/blank/unicode strings, bools, containers, temporal strings and datetimes), on the scalar objects attached to a cooked schema and through echo fields of a real engine (resolver return, literal spelling, variable spelling). Laws: L1 result fails or yields the wire type denoting the same value; L2 input accepts exactly the spec kinds (reference tables in vf/model/coerce.py); L3 literal == variable; L4 idempotence and temporal round trips."),
+    "C14": dict(engine="E3+E5", cat="model_checking",
+                technique="exhaustive enumeration of all event sequences up to length L over a 4-letter payload alphabet x subscription documents, each driven through the real subscribe() on a hand-stepped loop under all orders of source production and resolver completion; per-event comparison with the reference executor",
+                text="7 subscription documents (plain, alias, fragment, literal / variable / defaulted argument, scalar root) x ALL event sequences of length <= 3 (85; thorough 4: 341) over {well-formed payload, payload provoking a nullable-field error, payload provoking a non-null error, None} x all schedules of the source's production points and the resolvers' suspension points (+ <= 1 mid-run injection); 6 refused requests (validation, syntax, variable coercion, operation selection); thorough: two concurrent streams under all interleavings. Oracle: exactly one response per event, in order, each equal to the reference execution of the selection against that event; the source is started once with the spec-coerced arguments and the stream ends exactly when it ends; refused requests yield one errors-only response and never start the source."),
+    "C15": dict(engine="E3", cat="model_checking",
+                technique="stateless model checking: every multiset of 2 (3) requests from a pool in flight on one engine under all interleavings of their resolver completions, differential against solo runs on fresh engines, followed by a probe request",
+                text="All 2-multisets (thorough: plus a third of the 3-multisets) of a 13-request pool (same text / other variables incl. a @skip nested under a suspending field, same text / other operation name, other documents, failing, raising, bytes spelling, dict context, invalid variables, a shared exception object) are started as tasks on one hand-stepped loop; ALL completion orders of their suspended resolvers are executed. Each response must equal the response of the same request run alone on a fresh engine (data and error multiset), and a probe request issued afterwards must answer as on a fresh engine."),
     "C18": dict(engine="E1", cat="model_checking",
                 technique="exhaustive enumeration of all short strings over a 14-character alphabet and of all single-token mutations of seed documents x operation names x variables objects x error coercers; envelope invariant checked on every execution",
                 text="Every string of length <= 4 (thorough 5) over {}a ():$\"1.@#\\n, every single-token deletion/duplication/replacement of 6 seed documents, byte spellings (BOM, NUL, invalid UTF-8), nesting depth 50/500/5000, x 4 error coercers x operation names x 9 variables objects. Invariant: never raises, dict with data, errors absent or non-empty with well-formed entries and in-text locations, syntax errors / failed operation selection run nothing, custom coercer awaited exactly once per error and its value used."),
